@@ -1529,6 +1529,12 @@ def fam_options(prop, tier):
     b += "    let (out, _p) = run(%s, 1);\n    assert!(out.is_some());\n" % prog
     b += "    let r: Result<(u8, u8), u8> = out.unwrap();\n    assert!(r == Ok((a.wrapping_add(1), c)));\n    assert!(tlen_kind(K_JOINER) == 1);\n"
     out.append(Harness("c16_opt_async_macro_joiner_all_options", harness_fn("c16_opt_async_macro_joiner_all_options", b, unwind=TMAX + 2), prog, note="all four options, async, macro joiner"))
+    # -------- lazy_branches(true) in an ASYNC macro: the joiner macro CALLS each argument, so anything but a zero-argument
+    # closure does not compile (the option applies to every kind that takes a custom joiner)
+    b = "    let a: u8 = kani::any(); let c: u8 = kani::any();\n"
+    prog = "join_async! { custom_joiner(crate::lazy_async_joiner!) lazy_branches(true) gate(0, code(K_POLL, 0, 0, 0), a) ~|> |x: u8| x.wrapping_add(1), gate(0, code(K_POLL, 1, 0, 0), c) ~|> |x: u8| x.wrapping_add(2) }"
+    b += "    let (out, _p) = run(%s, 1);\n    assert!(out == Some((a.wrapping_add(1), c.wrapping_add(2))));\n    assert!(tlen_kind(K_JOINER) == 2);\n" % prog
+    out.append(Harness("c16_opt_async_lazy_joiner", harness_fn("c16_opt_async_lazy_joiner", b, unwind=TMAX + 2), prog, note="lazy_branches(true) with a thunk-calling joiner macro, async"))
     return out
 
 
